@@ -2,7 +2,7 @@
 C15 — "every MultiEndpoint already reflects the connectivity of the pools when UpdateMultiEndpoints
 returns": after an accepted update, in every MultiEndpoint (kept, re-configured or new) an endpoint
 counts as available exactly when its pool was READY in the status sync at the end of the call —
-whatever the MultiEndpoint believed before, and in whatever order the pool map was walked.
+whatever the MultiEndpoint believed before, and whatever switching delay it has.
 -/
 import GcpVerif.Proofs.GME2
 import GcpVerif.Proofs.ME6
@@ -34,34 +34,12 @@ theorem fold_sync_status (r : String → Bool) (l : List String) : ∀ (done : L
       · rw [← e1]; exact hyd
       · exact absurd (e1 ▸ hyd) hxe
 
-theorem foldl_notify_mes (r : String → Bool) (l : List String) : ∀ (s : St),
-    (l.foldl (fun s e => notifyAll s e (r e)) s).mes =
-      s.mes.map fun p => (p.1, l.foldl (fun m e => ME.opSetAvail m e (r e)) p.2) := by
-  induction l with
-  | nil => intro s; simp
-  | cons e rest ih =>
-    intro s
-    simp only [List.foldl_cons]
-    rw [ih]
-    simp [notifyAll, List.map_map, Function.comp_def]
-
-theorem fold_ids (r : String → Bool) (l : List String) : ∀ (me : ME.St),
-    ∀ ep ∈ (l.foldl (fun m e => ME.opSetAvail m e (r e)) me).eps, ∃ y ∈ me.eps, ep.id = y.id := by
-  induction l with
-  | nil => intro me ep hep; exact ⟨ep, hep, rfl⟩
-  | cons e rest ih =>
-    intro me ep hep
-    simp only [List.foldl_cons] at hep
-    obtain ⟨y1, hy1, e1⟩ := ih _ ep hep
-    obtain ⟨y, hy, e2⟩ := ME.opSetAvail_ids me e (r e) y1 hy1
-    exact ⟨y, hy, e1.trans e2⟩
-
 /-- **C15** when an accepted UpdateMultiEndpoints returns, every MultiEndpoint reflects the connectivity
     of the pools: an endpoint is available there exactly when its pool was READY in the final status
-    sync (`connReady`), for every order `ord` in which the pool map is walked -/
+    sync (`connReady`), for every switching delay `dl` -/
 theorem update_syncs_status {s : St} (h : G s) (d : String) (o : Opts) (f : List String) (r : String → Bool)
-    (ord : List String) (hok : (update s d o f r ord).2 = true) :
-    ∀ p ∈ (update s d o f r ord).1.mes, ∀ ep ∈ p.2.eps, (ep.status = .available ↔ r ep.id = true) := by
+    (dl : Int) (hok : (update s d o f r dl).2 = true) :
+    ∀ p ∈ (update s d o f r dl).1.mes, ∀ ep ∈ p.2.eps, (ep.status = .available ↔ r ep.id = true) := by
   unfold update at hok ⊢
   by_cases hv : optsValid d o = true
   · simp only [hv, Bool.not_true, Bool.false_eq_true, ↓reduceIte] at hok ⊢
@@ -72,69 +50,21 @@ theorem update_syncs_status {s : St} (h : G s) (d : String) (o : Opts) (f : List
       unfold optsValid at hv
       simp only [Bool.and_eq_true, List.any_eq_true, List.all_eq_true] at hv
       obtain ⟨-, hall⟩ := hv
-      -- every entry of the new table is a reachable MultiEndpoint whose endpoints all have pools
-      have hmes : ∀ p ∈ (o.filterMap fun p => match p.2 with
-            | none => none
-            | some l => match findME s p.1 with
-              | some me => some (p.1, (ME.step me (.setEndpoints l)).1)
-              | none => (ME.init 0 0 l).map fun me => (p.1, me)),
-          ∃ l, (p.1, some l) ∈ o ∧ ME.Reach p.2 ∧ ∀ e ∈ p.2.eps, e.id ∈ l := by
-        intro p hp
-        obtain ⟨q, hq, hqp⟩ := List.mem_filterMap.mp hp
-        have hql := hall q hq
-        cases hq2 : q.2 with
-        | none => rw [hq2] at hql; cases hql
-        | some l =>
-          rw [hq2] at hql hqp
-          have hlne : l ≠ [] := by simpa using hql
-          simp only at hqp
-          have hqmem : (q.1, some l) ∈ o := by rw [← hq2]; exact hq
-          cases hfm : findME s q.1 with
-          | some me =>
-            rw [hfm] at hqp
-            simp only [Option.some.injEq] at hqp
-            subst hqp
-            exact ⟨l, hqmem, ME.api_step_reach (.setEndpoints l) (h.meReach _ (findME_mem hfm)),
-              ME.api_setEndpoints_ids_sub me l hlne⟩
-          | none =>
-            rw [hfm] at hqp
-            cases hin : ME.init 0 0 l with
-            | none => rw [hin] at hqp; cases hqp
-            | some me =>
-              rw [hin] at hqp
-              simp only [Option.map_some, Option.some.injEq] at hqp
-              subst hqp
-              exact ⟨l, hqmem, ME.api_init_reach hin, ME.api_init_ids_sub hin⟩
       intro p hp ep hep
-      rw [foldl_notify_mes] at hp
-      obtain ⟨p0, hp0, rfl⟩ := List.mem_map.mp hp
-      obtain ⟨l, hlo, hreach, hsub⟩ := hmes p0 hp0
-      simp only at hep
-      -- the endpoint has a pool, so the status sync visits it
-      obtain ⟨y, hy, hyid⟩ := fold_ids r _ p0.2 ep hep
-      have hxv : ep.id ∈ validEndpoints o := by rw [hyid]; exact mem_validEndpoints hlo (hsub y hy)
-      have hpool : ep.id ∈ ((s.pools ++ (validEndpoints o).filter fun e => !s.pools.contains e).filter fun e => (validEndpoints o).contains e) := by
-        simp only [List.mem_filter, List.mem_append, List.contains_eq_mem, decide_eq_true_eq, Bool.not_eq_eq_eq_not, Bool.not_true, decide_eq_false_iff_not]
-        refine ⟨?_, hxv⟩
-        by_cases hin : ep.id ∈ s.pools
-        · exact Or.inl hin
-        · exact Or.inr ⟨hxv, hin⟩
-      refine fold_sync_status r _ [] p0.2 hreach (fun _ _ hh => by cases hh) ep hep ?_
-      simp only [List.nil_append]
-      split
-      · rename_i heq
-        have heq' := (beq_iff_eq.mp heq)
-        have : ep.id ∈ (ord.mergeSort fun a b => decide (a ≤ b)) := by rw [heq']; exact List.mem_mergeSort.mpr hpool
-        exact List.mem_mergeSort.mp this
-      · exact hpool
+      obtain ⟨l, me0, _, _, hreach, hsub, hp2⟩ := new_mes_spec h dl o r hall p hp
+      rw [hp2] at hep
+      -- every endpoint of the MultiEndpoint is named in its own list, so the status sync tells it
+      obtain ⟨y, hy, hyid⟩ := tellOwn_ids r l me0 ep hep
+      have hin : ep.id ∈ l := hyid ▸ hsub y hy
+      exact fold_sync_status r l [] me0 hreach (fun _ _ hh => by cases hh) ep hep (by simpa using hin)
   · have : optsValid d o = false := by simpa using hv
     simp only [this, Bool.not_false, ↓reduceIte] at hok
     cases hok
 
 /-- the same for every state reachable through the API -/
 theorem update_syncs_status_reach {s : St} (h : Reach s) (d : String) (o : Opts) (f : List String)
-    (r : String → Bool) (ord : List String) (hok : (update s d o f r ord).2 = true) :
-    ∀ p ∈ (update s d o f r ord).1.mes, ∀ ep ∈ p.2.eps, (ep.status = .available ↔ r ep.id = true) :=
-  update_syncs_status (reach_g h) d o f r ord hok
+    (r : String → Bool) (dl : Int) (hok : (update s d o f r dl).2 = true) :
+    ∀ p ∈ (update s d o f r dl).1.mes, ∀ ep ∈ p.2.eps, (ep.status = .available ↔ r ep.id = true) :=
+  update_syncs_status (reach_g h) d o f r dl hok
 
 end GcpVerif.GME
